@@ -1,0 +1,9 @@
+//go:build verif && linux
+
+package memfd
+
+// Verification hooks (build tag verif): the flag constants as compiled.
+const (
+	VerifCreateFlag = createFlag
+	VerifRoSeal     = roSeal
+)
